@@ -21,6 +21,7 @@ THEOREMS = [
     "C09_replay_preserves", "C09_rebuild_preserves",
     "C09_unambiguous_lookup_coincides", "C09_unambiguous_subscriptions_coincide",
     "C09_rebuild_answers_unambiguous_lookups", "C09_replay_answers_unambiguous_lookups",
+    "C09_regsys_step_storage",
 ]
 RULE = ("1-2 base-less registries (both flavours) over a generated interface/class world; keys come in "
         "families sharing a required prefix and differing in provided / name / last required; values 1..6 "
